@@ -67,3 +67,22 @@ func extractExtractors() {
 	pb := strings.ReplaceAll(src(fn("internal/pkg/archiver/body.go", "ProcessBody")), " ", "")
 	s.boolean("bodyKeptForPlaylists", strings.Contains(pb, `mpegurl`))
 }
+
+// Containment (C10): what happens to an error or a panic raised while a server-controlled body is processed.
+func extractContainment() {
+	s := newSection("Containment")
+	rec := `deferfunc(){ifr:=recover();r!=nil{`
+	as := strings.ReplaceAll(src(fn("internal/pkg/postprocessor/assets.go", "extractAssets")), " ", "")
+	ol := strings.ReplaceAll(src(fn("internal/pkg/postprocessor/outlinks.go", "extractOutlinks")), " ", "")
+	s.boolean("assetsRecover", strings.HasPrefix(strings.SplitN(as, "{", 2)[1], rec) && strings.Contains(as, `assets,outlinks=nil,nilerr=fmt.Errorf(`))
+	s.boolean("outlinksRecover", strings.HasPrefix(strings.SplitN(ol, "{", 2)[1], rec) && strings.Contains(ol, `outlinks=nilerr=fmt.Errorf(`))
+	it := strings.ReplaceAll(src(fn("internal/pkg/postprocessor/item.go", "postprocessItem")), " ", "")
+	s.boolean("assetsErrorLoggedNotFatal", strings.Contains(it, `assets,outlinksFromAssets,err=extractAssets(item)iferr!=nil{logger.Error("unabletoextractassets"`) && strings.Contains(it, `}else{fori:=rangeassets{`))
+	s.boolean("outlinksErrorLoggedNotFatal", strings.Contains(it, `newOutlinks,err:=extractOutlinks(item)iferr!=nil{logger.Error("unabletoextractoutlinks"`))
+	ar := strings.ReplaceAll(src(fn("internal/pkg/archiver/archiver.go", "archive")), " ", "")
+	s.boolean("processBodyErrorFailsItem", strings.Contains(ar, `err=ProcessBody(`) && strings.Contains(ar, `iferr!=nil{logger.Error("unabletoprocessbody"`) && strings.Contains(ar, `item.SetStatus(models.ItemFailed)return}stats.MeanProcessBodyTimeAdd`))
+	nu := strings.ReplaceAll(src(fn("internal/pkg/preprocessor/url.go", "NormalizeURL")), " ", "")
+	s.boolean("normaliserReturnsErrors", strings.Count(nu, "returnerr") >= 3 && !strings.Contains(nu, "panic("))
+	// panics that remain in postprocessItem are on tree invariants (AddChild), not on input
+	s.natLit("postprocessItemPanics", strings.Count(it, "panic("))
+}
